@@ -81,6 +81,9 @@ type nestEnv struct {
 	ext      bool // extended generators and oracles (see the head of this file)
 	coll     bool // keys collide on every digest level (hx.HashInputBucket)
 	mutated  bool // the last mutatePlain changed its container
+	// store-set oracles (nestedstores.go)
+	sw                                       *storeWatch
+	ancestorWriteReported, sameBytesReported bool
 }
 
 // hi is the hash-input provider of the program.
@@ -112,8 +115,11 @@ func (e *nestEnv) emitEffects() {
 			e.w.L("SLB MISSING(%s)", hx.IDStr(id))
 			continue
 		}
-		e.w.L("SLB %s", atree.VerifDumpSlab(s, hx.Describe))
+		d := atree.VerifDumpSlab(s, hx.Describe)
+		e.w.L("SLB %s", d)
+		e.noteStore(id, d)
 	}
+	e.closeStores(e.rec.Effs)
 	e.rec.Reset()
 }
 
@@ -345,7 +351,11 @@ func runNestedProgram(e *nestEnv, nOps int) {
 		r := e.rng.Intn(100)
 		switch {
 		case r < 14:
-			e.opNewChild()
+			if e.ext && e.rng.Intn(6) == 0 {
+				e.opNewChildStandalone() // (nestedstores.go)
+			} else {
+				e.opNewChild()
+			}
 		case r < 50:
 			e.opMutate(false)
 		case r < 60:
@@ -1045,7 +1055,9 @@ func (e *nestEnv) opBoundaryWalk() {
 		return false
 	}
 	for i := 0; i < 800 && !inl() && hasPlain() && ok(); i++ {
-		e.mutatePlain(c, "C10")
+		if !e.landNear(c) { // exactly budget+1, then exactly the budget (nestedstores.go)
+			e.mutatePlain(c, "C10")
+		}
 	}
 	for i := 0; i < 3 && hasPlain() && ok(); i++ {
 		e.mutatePlain(c, "C10")
